@@ -188,6 +188,12 @@ func judge(c *Case) *core.Verdict {
 		v.OK, v.Sig, v.Detail = false, sig, fmt.Sprintf(f, a...)+"\n"+text
 		return v
 	}
+	if c.Prop == "C07" && c.Late {
+		// executed (crash monitor) but not compared: the statement leaves implicit cases as augment targets out
+		Load(&c.Prog, names)
+		v.Out = true
+		return v
+	}
 	ms, errs, perr := Load(&c.Prog, names)
 	if perr != nil {
 		if !c.Errs {
@@ -267,7 +273,7 @@ func judge(c *Case) *core.Verdict {
 					return fail("instantiating-module-differs", "module %s path %s: specification %q, library %q", n, p, want, g.Imod)
 				}
 			}
-			if foc["ro"] && g.Ro != f.Ro {
+			if foc["ro"] && !f.Opcfg && g.Ro != f.Ro {
 				return fail("readonly-differs", "module %s path %s: specification %v, library %v", n, p, f.Ro, g.Ro)
 			}
 			if foc["attrs"] && !f.Implicit {
